@@ -2,6 +2,7 @@
 package all
 
 import (
+	_ "verifsim/worlds/circfile"
 	_ "verifsim/worlds/conn"
 	_ "verifsim/worlds/gmwworld"
 	_ "verifsim/worlds/kos"
